@@ -106,21 +106,26 @@ fn res_unit(r: Result<()>) -> Value {
 
 pub fn opts_of(o: &Value) -> Opts {
     let mut opts = Opts::new(o.get("name").and_then(|x| x.as_str()).unwrap_or(""), o.get("help").and_then(|x| x.as_str()).unwrap_or(""));
-    if let Some(ns) = o.get("ns").and_then(|x| x.as_str()) {
-        opts = opts.namespace(ns);
+    // the builder methods are applied in the order given by "order" (default: ns, sub, const_map, const, var): the result does not
+    // depend on it, except that const_labels() replaces and const_label() adds — const_map therefore always precedes const
+    let default_order = ["ns", "sub", "const_map", "const", "var"];
+    let mut order: Vec<String> = o.get("order").and_then(|x| x.as_array()).map(|a| a.iter().map(|x| x.as_str().unwrap().to_owned()).collect())
+        .unwrap_or_else(|| default_order.iter().map(|x| x.to_string()).collect());
+    if let (Some(a), Some(b)) = (order.iter().position(|x| x == "const_map"), order.iter().position(|x| x == "const")) {
+        if a > b { order.swap(a, b); }
     }
-    if let Some(sub) = o.get("sub").and_then(|x| x.as_str()) {
-        opts = opts.subsystem(sub);
-    }
-    if o.get("const_map").is_some() {
-        let m: HashMap<String, String> = pairs(o.get("const_map")).into_iter().collect();
-        opts = opts.const_labels(m);
-    }
-    for (k, v) in pairs(o.get("const")) {
-        opts = opts.const_label(k, v);
-    }
-    if o.get("var").is_some() {
-        opts = opts.variable_labels(strs(o.get("var")));
+    for step in &order {
+        match step.as_str() {
+            "ns" => if let Some(ns) = o.get("ns").and_then(|x| x.as_str()) { opts = opts.namespace(ns); },
+            "sub" => if let Some(sub) = o.get("sub").and_then(|x| x.as_str()) { opts = opts.subsystem(sub); },
+            "const_map" => if o.get("const_map").is_some() {
+                let m: HashMap<String, String> = pairs(o.get("const_map")).into_iter().collect();
+                opts = opts.const_labels(m);
+            },
+            "const" => for (k, v) in pairs(o.get("const")) { opts = opts.const_label(k, v); },
+            "var" => if o.get("var").is_some() { opts = opts.variable_labels(strs(o.get("var"))); },
+            _ => panic!("harness: opts step {}", step),
+        }
     }
     opts
 }
